@@ -293,14 +293,20 @@ func checkC15(tier, replay string) int {
 						// output of a command.
 						continue
 					}
-					for _, kind := range []string{"2:00", "1:00"} {
+					for _, kind := range []string{"2:00", "1:00", "aborted-async"} {
 						for _, chunk := range []string{"whole", "lines", "prompt-delayed"} {
+							if kind == "aborted-async" && (chunk != "whole" || e.Class != "config-change") {
+								continue
+							}
 							if chunk == "prompt-delayed" && !strings.HasSuffix(f, "own-prompt") {
 								continue
 							}
 							// The time is printed as 0:0N:00 or, by some
 							// releases, 00:0N:00; the tool accepts both.
 							for _, hh := range []bool{false, true} {
+								if hh && kind == "aborted-async" {
+									continue
+								}
 								n++
 								c := &c15Case{Script: si, StepClass: stepClass, StepRaw: e.Raw,
 									Banner: &sim.Banner{Ord: e.Ord, Form: f, Kind: kind, Chunk: chunk, HH: hh}}
